@@ -295,6 +295,21 @@ let process_trace header (lines : string list) =
                 if List.exists (function OutSubmit _ -> true | _ -> false) outs then tag "submit";
                 if List.exists (function EvFinished _ -> true | _ -> false) outs then tag "alloc-finished";
                 (match o with
+                 | OTick (_, resps, _) ->
+                     (* demand side (structural, on the real scheduler's answer): the fitting 1-cpu tasks bound
+                        the number of 1-cpu workers asked for; tasks that fit no queue (4 cpus on 1-cpu workers,
+                        min_time above the time limit) create no demand *)
+                     let toks = words opline in
+                     let k = (match toks with _ :: k :: _ -> int_of_string k | _ -> 0) in
+                     let geti key = (let v = kv toks key in if v = "-" then 0 else int_of_string v) in
+                     let u = geti "u" and t = geti "t" in
+                     let total = List.fold_left (fun acc ((sn, _), _) -> acc + int_of_n sn) 0 resps in
+                     let mn = List.exists (fun ((_, mn), _) -> mn <> N0) resps in
+                     if u + t > 0 then tag (if k = 0 then "only-unfit-demand" else "mixed-unfit-demand");
+                     if total > k || mn then
+                       fail "C17" "demand-without-candidates" (Printf.sprintf "step=%d fitting_tasks=%d unfit=%d too_long=%d workers_wanted=%d" !step_no k u t total)
+                 | _ -> ());
+                (match o with
                  | OTick (_, resps, scripts) ->
                      let nsub = List.length (List.filter (function OutSubmit _ -> true | _ -> false) outs) in
                      let nq = List.length (List.filter (function EvQueued _ -> true | _ -> false) outs) in
